@@ -104,19 +104,19 @@ def _vm_goal(case, out):
                 return call + " = None"
             # ACC B <b> R <r> I <i>
             b = [] if o[2] == "-" else ["(%s%%nat, %s)" % (x.split(":")[0], _vm_nats(x.split(":")[1])) for x in o[2].split(";")]
-            return ("match %s with Some (rs, _, log) => (rs, batches log) = (%s, %s) | None => False end"
+            return ("match %s with Some (rs, _, log, _) => (rs, batches log) = (%s, %s) | None => False end"
                     % (call, _vm_results(o[4]), _vm_lst(b, "(nat * list nat)")))
         if p[0] == "X":
             if "*" in out:
                 return None
             r0 = "None" if p[2] == "none" else "(Some %s)" % _vm_lst([] if p[2] == "-" else ["(mkDesc %s 0 0)" % k for k in p[2].split(",")], "desc")
-            call = "vis_summary %s %s %s %s" % ("true" if p[1] == "1" else "false", r0, _vm_changes(p[3]), _vm_vis(p[4:]))
+            call = "vis_summary %s %s %s %s" % ("true" if p[1][0] == "1" else "false", r0, _vm_changes(p[3]), _vm_vis(p[4:]))
             if o[0] == "REJECT":
                 return call + " = None"
             # ACC R <r> I <i> U <u>
             idx = "None" if o[4] == "none" else "(Some %s)" % _vm_ns(o[4])
             us = [] if o[6] == "-" else [_vm_ns("" if x == "e" else x) for x in o[6].split(";")]
-            return ("match %s with Some (rs, idx, log) => (rs, idx, puts log) = (%s, %s, %s) | None => False end"
+            return ("match %s with Some (rs, idx, log, _) => (rs, idx, puts log) = (%s, %s, %s) | None => False end"
                     % (call, _vm_results(o[2]), idx, _vm_lst(us, "(list N)")))
     except Exception:
         return None
